@@ -994,6 +994,9 @@ func (f *frame) runBlock(b *ssa.BasicBlock, st *State, be map[[2]int]bool, loopO
 			if pv := f.val(v.Addr); len(a.path) == 0 && pv.addr == nil {
 				f.nopanic("nil", "", reach, fmt.Sprintf("(not (= %s 0))", pv.term))
 			}
+			if strings.Contains(sv.term, interiorPtr) {
+				panic("an interior pointer is stored in memory")
+			}
 			e.store(st, a, sv.term)
 		case *ssa.MakeClosure:
 			var bs []Val
